@@ -74,6 +74,8 @@ class Gen:
         self._pending_multi = False
         self.multi = []        # descriptions of the faults injected through inject2
         self.injected = None   # description of the injected fault
+        self.force_variant = None   # which variant of a fault to inject (cycled by the fault stream)
+        self.variant_missed = False  # the forced variant was not applicable at the chosen site
         self.work_types = []
 
     # ------------------------------------------------------------------ basics
@@ -137,6 +139,13 @@ class Gen:
             self._pending_multi = True
             return True
         return False
+
+    def variant(self, n):
+        """Which of the `n` variants of a fault to inject: the forced one (the fault stream cycles
+        through them so that a small batch still has every variant of every rule), else random."""
+        if self.force_variant is not None:
+            return self.force_variant % n
+        return self.rng.randrange(n)
 
     def other_prim(self, t):
         cands = [p for p in ["i32", "bool", "u8", "f64", "i64"] if P(p) != t]
@@ -218,7 +227,7 @@ class Gen:
         if k == "field":
             n, a = r.choice(fields)
             if self.site("R9"):
-                c = r.randrange(3)
+                c = self.variant(3)
                 prims = [m for m, (vt, _) in vis.items() if vt[0] == "p"]
                 if c == 0 or (c == 1 and not prims):
                     self.injected = {"rule": "R9", "kind": "ValueNotFound", "name": "undeclared"}
@@ -238,7 +247,7 @@ class Gen:
     def call(self, f, depth):
         ps, _ = self.fns[f]
         if self.site("R10"):
-            c = self.rng.randrange(4)
+            c = self.variant(4)
             if c == 3 and len(ps) >= 2:
                 # two faults inside one call: an earlier argument of the wrong type, a later one that
                 # does not analyse; the first violation is the type of the earlier argument
@@ -254,7 +263,10 @@ class Gen:
                 self.injected = {"rule": "R10", "kind": "FunctionParameterTypeWrong"}
                 return ["call", self.ident(f)] + args
             if c == 3:
+                self.variant_missed = True     # needs a callee with two parameters: try another seed
                 c = 0
+            if c == 1 and not ps:
+                self.variant_missed = True
             if c == 0 or (c == 1 and not ps):
                 self.injected = {"rule": "R10", "kind": "FunctionNotFound", "name": "nofn"}
                 return ["call", self.ident("nofn")] + [self.expr(pt, depth) for _, pt in ps]
@@ -314,7 +326,7 @@ class Gen:
             rt = t
             if self.site("R14"):
                 structs = [x for x in self.work_types if x[0] == "s"]
-                c14 = r.random()
+                c14 = [0.1, 0.4, 0.8][self.variant(3)]
                 if structs and c14 < 0.3:
                     t = rt = r.choice(structs)
                     self.injected = {"rule": "R14", "kind": "ConditionExpressionNotSupported"}
@@ -365,7 +377,7 @@ class Gen:
         term = None
         if kind == "fn":
             if self.site("R22"):
-                c = r.randrange(4)
+                c = self.variant(4)
                 if c == 0:
                     self.injected = {"rule": "R22", "kind": "ReturnNotFound"}
                     return out
@@ -418,7 +430,7 @@ class Gen:
             else:
                 n, t = r.choice(muts)
                 if self.site("R16"):
-                    c = r.randrange(3)
+                    c = self.variant(3)
                     imm = [m for m, (_, mu) in self.visible().items() if not mu]
                     if c == 0 or (c == 1 and not imm):
                         self.injected = {"rule": "R16", "kind": "ValueNotFound", "name": "undeclared"}
@@ -492,7 +504,7 @@ class Gen:
             self.injected = {"rule": "R18", "kind": "IfElseDuplicated"}
             els = ["else", self.ifbody(0, in_loop, ret_ty)]
             elif_ = ["elif", self.ifs(0, in_loop, ret_ty, 3)]
-            c18 = r.random()
+            c18 = [0.1, 0.5, 0.9][self.variant(3)]
             if c18 < 0.35:
                 # a second violation inside the same if: the else / else-if rule is still met first
                 c = ["single", ["expr", ["name", self.ident("ghost")]]]
@@ -668,24 +680,32 @@ def flatten_positions(tree):
     return tree
 
 
-def gen_fault(seed, rule=None):
-    """Well-formed program with one fault of `rule` at a uniformly chosen applicable site."""
+def gen_fault(seed, rule=None, variant=None):
+    """Well-formed program with one fault of `rule` (variant `variant` of it, when the rule has
+    several) at a uniformly chosen applicable site."""
     rr = random.Random(seed ^ 0x5EED)
     rules = [rule] if rule else rr.sample(RULES, len(RULES))
-    for ru in rules:
-        g = Gen(seed)
-        g.program()
-        n = g.sites.get(ru, 0)
-        if n == 0:
-            continue
-        k = rr.randrange(n)
-        g = Gen(seed)
-        g.inject = (ru, k)
-        p = g.program()
-        if g.injected is not None:
-            meta = {"stream": "fault", "seed": seed, "site": k, "sites": n}
-            meta.update(g.injected)
-            return p, meta
+    # a program without a site for the wanted rule: try the next seeds (a rule such as R9 needs a
+    # struct-typed value in scope) before giving up
+    for attempt in range(12 if rule else 1):
+        sd = seed + attempt
+        for ru in rules:
+            g = Gen(sd)
+            g.program()
+            n = g.sites.get(ru, 0)
+            if n == 0:
+                continue
+            k = rr.randrange(n)
+            g = Gen(sd)
+            g.inject = (ru, k)
+            g.force_variant = variant
+            p = g.program()
+            if g.variant_missed and variant is not None and attempt < 11:
+                continue
+            if g.injected is not None:
+                meta = {"stream": "fault", "seed": sd, "site": k, "sites": n}
+                meta.update(g.injected)
+                return p, meta
     p, m = gen_wf(seed)
     return p, m
 
@@ -1244,7 +1264,7 @@ def generate(seed, n_wf, n_fault, n_free, n_known=0):
     for _ in range(n_wf):
         out.append(gen_wf(base.randrange(1 << 48)))
     for i in range(n_fault):
-        out.append(gen_fault(base.randrange(1 << 48), RULES[i % len(RULES)]))
+        out.append(gen_fault(base.randrange(1 << 48), RULES[i % len(RULES)], i // len(RULES)))
     for _ in range(n_free):
         out.append(gen_free(base.randrange(1 << 48)))
     for _ in range(n_fault // 2):
